@@ -364,6 +364,8 @@ class _EH(RotHooks):
             return None
         if A.is_const(ra) and A.is_const(rb):
             return None
+        if ev.names_as_atoms:
+            ra = ev.expand(ra)
         # z < 0 / z > 0 / z >= 0 ...
         import ast as _ast
         if A.key(ra) == A.key(A.sym(self.z_atom)) and A.is_const(rb) and A.const_of(rb) == 0:
@@ -379,6 +381,8 @@ class _EH(RotHooks):
         if q == 'builtins.abs' and args:
             A = ev.A
             v = args[0]
+            if isinstance(v, Rat) and ev.names_as_atoms:
+                v = ev.expand(v)
             if isinstance(v, Rat) and A.key(v) == A.key(A.sym(self.z_atom)):
                 return A.neg(v) if self.z_negative else v
         return RotHooks.call(self, ev, q, node, args, kwargs, env)
